@@ -324,30 +324,7 @@ def run_child(rec: dict, deep_each_op: bool = False) -> dict:
     }
 
 
-def closure_chain(history: list, j: int) -> list:
-    need: set[int] = set()
-
-    def visit(i: int) -> None:
-        if i in need:
-            return
-        need.add(i)
-        for r in ops.refs_of(history[i]):
-            visit(r)
-
-    visit(j)
-    order = sorted(need)
-    renum = {old: new for new, old in enumerate(order)}
-
-    def remap(x):
-        if isinstance(x, dict):
-            if "ref" in x and len(x) == 1:
-                return {"ref": renum[x["ref"]]}
-            return {k: remap(v) for k, v in x.items()}
-        if isinstance(x, list):
-            return [remap(y) for y in x]
-        return x
-
-    return [[history[i][0], *remap(history[i][1:])] for i in order]
+closure_chain = ops.closure_chain
 
 
 def reference(rec: dict, j: int):
